@@ -78,3 +78,31 @@ Example C03_code_order_example :
   tr_glyph_order [[98]; notdef; [97]; [99]] [[99]; [120]; [99]; [97]] = [notdef; [99]; [97]; [98]].
 Proof. exact code_order_example. Qed.
 Print Assumptions C03_code_order_example.
+
+(* ---- makeUnicodeToGlyphNameMapping as TRANSLATED from /repo's util.py on this run: nested loops over (glyph, code points), an
+   insertion-ordered dict, and the raise ---- *)
+Theorem C03_code_cmap_is_the_model : forall gl,
+  tr_u2g gl = match u2g gl [] with U2G_ok m => inl m | U2G_dup cp g prev => inr (g, cp, prev) end.
+Proof. exact translated_u2g_is_the_model. Qed.
+Print Assumptions C03_code_cmap_is_the_model.
+
+(* the code returns a mapping exactly when no code point is declared twice -- the (code point, glyph) pairs in glyph order --
+   and raises exactly otherwise *)
+Theorem C03_code_cmap_ok_iff_no_duplicate : forall gl, tr_u2g gl = inl (pairs_of gl) <-> has_duplicate_cp gl = false.
+Proof. exact code_u2g_ok_iff_no_duplicate. Qed.
+Print Assumptions C03_code_cmap_ok_iff_no_duplicate.
+
+Theorem C03_code_cmap_raises_iff_duplicate : forall gl, (exists e, tr_u2g gl = inr e) <-> has_duplicate_cp gl = true.
+Proof. exact code_u2g_raises_iff_duplicate. Qed.
+Print Assumptions C03_code_cmap_raises_iff_duplicate.
+
+Theorem C03_code_cmap_sound_complete : forall gl m cp g,
+  tr_u2g gl = inl m -> (zassoc cp m = Some g <-> exists us, In (g, us) gl /\ In cp us).
+Proof. exact code_cmap_sound_complete. Qed.
+Print Assumptions C03_code_cmap_sound_complete.
+
+Example C03_code_cmap_example :
+  tr_u2g [([97], [97; 65]); ([98], [98])] = inl [(97, [97]); (65, [97]); (98, [98])] /\
+  tr_u2g [([97], [97]); ([98], [98; 97])] = inr ([98], 97, [97]).
+Proof. exact code_u2g_example. Qed.
+Print Assumptions C03_code_cmap_example.
